@@ -248,7 +248,8 @@ def apply(s, step, ctx):
             kdiv = 4 if layout.endswith('4') else 2
             if X.shape[1] % kdiv or n_ent < kdiv:
                 raise Reject()
-            ix = np.arange(kdiv, dtype=np.int32)
+            # the list of cells/facets varies between steps while the point array OBJECT stays the same
+            ix = ((np.arange(kdiv) + step.get('shift', 0)) % n_ent).astype(np.int32)
             Xa = X if layout.startswith('shared') else X.reshape(X.shape[0], kdiv, X.shape[1] // kdiv)
 
         def val(mm):
@@ -461,7 +462,10 @@ def apply(s, step, ctx):
                 L, X = solve(A, M, solver=sv, **extra)
                 return eig_canon(L, X)
             return solve(A, f, solver=sv, **extra)
-        compare(ctx, 'solve_result', attempt(lambda: run(pooled)), attempt(lambda: run(make_solver(name))), dict(sig, solver=name), tol=1e-7)
+        # deterministic solvers (direct, Krylov with a fixed start) give bit-identical answers whatever the closure solved before;
+        # ARPACK starts from a random vector: eigenpairs at 1e-7
+        compare(ctx, 'solve_result', attempt(lambda: run(pooled)), attempt(lambda: run(make_solver(name))), dict(sig, solver=name),
+                tol=(1e-7 if eig else None))
         if name in ('eigen', 'eigen_sym', 'direct', 'cg') and (digest(A.data, A.indices, A.indptr), digest(f)) != h0:
             ctx.fail('operand_mutated', f'solve with {name} changed the system', **sig)
         after()
@@ -499,7 +503,7 @@ class PoolMachine(HistoryMachine):
     @rule(mesh=st.integers(0, 3), fn=st.sampled_from([1, 2, 3, 1, 2, 0, 4, 5]), pts=st.sampled_from([0, 0, 0, 1, 2]),
           layout=st.sampled_from([1, 2, 1, 2, 0, 3, 4]))
     def mapping(self, mesh, fn, pts, layout):
-        self.do(dict(op='mapping', mesh=mesh, fn=fn, pts=pts, layout=layout))
+        self.do(dict(op='mapping', mesh=mesh, fn=fn, pts=pts, layout=layout, shift=(mesh + fn) % 3))
 
     @rule(mesh=st.integers(0, 1), fn=st.sampled_from([1, 2, 3]), layout=st.sampled_from([1, 2]))
     def mapping_again(self, mesh, fn, layout):
